@@ -15,19 +15,19 @@ import (
 // batches and predicates are rendered from it), so there is one source of
 // truth for the model constants.
 type AbsModel struct {
-	Name       string   `json:"name"`
-	MaxOps     int      `json:"max_ops"`
-	KeyOf      []int    `json:"key_of"`   // key of value id i+1; NullKey = null, NullKey+1 = missing
-	NullKey    int      `json:"null_key"` // keys >= NullKey sort last and are equal to each other
-	Batches    [][]int  `json:"batches"`
-	ObjMode    string   `json:"obj_mode"` // "single" | "all"
-	Branches   []string `json:"branches"`
-	OpKinds    []string `json:"op_kinds"`
-	Preds      [][]int  `json:"preds"` // predicate i is true of v iff KeyOf[v] in Preds[i]
-	Dir        string   `json:"dir"`   // pool order: "asc" | "desc"
+	Name       string     `json:"name"`
+	MaxOps     int        `json:"max_ops"`
+	KeyOf      []int      `json:"key_of"`   // key of value id i+1; NullKey = null, NullKey+1 = missing
+	NullKey    int        `json:"null_key"` // keys >= NullKey sort last and are equal to each other
+	Batches    [][]int    `json:"batches"`
+	ObjMode    string     `json:"obj_mode"` // "single" | "all"
+	Branches   []string   `json:"branches"`
+	OpKinds    []string   `json:"op_kinds"`
+	Preds      [][]int    `json:"preds"`           // predicate i is true of v iff KeyOf[v] in Preds[i]
+	Dir        string     `json:"dir"`             // pool order: "asc" | "desc"
 	Shape      [][]string `json:"shape,omitempty"` // op kinds allowed at each position (nil = unconstrained)
-	Invariants []string `json:"invariants"`
-	Properties []string `json:"properties"`
+	Invariants []string   `json:"invariants"`
+	Properties []string   `json:"properties"`
 }
 
 func tlaSeq(xs []int) string {
@@ -97,20 +97,20 @@ func (m *AbsModel) Cfg(export bool) string {
 // Step is one record of a LakeAbs history: operation, predicted result and
 // predicted observable state after it.
 type Step struct {
-	Op      string `json:"op"`
-	B       string `json:"b"`
-	Res     string `json:"res"`
-	Batch   int    `json:"batch,omitempty"`
-	Obj     int    `json:"obj,omitempty"`
-	Pred    int    `json:"pred,omitempty"`
-	Objs    []int  `json:"objs,omitempty"`
-	Vec     bool   `json:"vec,omitempty"`
-	From    string `json:"from,omitempty"`
-	At      int    `json:"at,omitempty"`
-	Child   string `json:"child,omitempty"`
-	Target  int    `json:"target,omitempty"`
-	Base    int    `json:"base,omitempty"`
-	Commit  int    `json:"commit,omitempty"`
+	Op      string  `json:"op"`
+	B       string  `json:"b"`
+	Res     string  `json:"res"`
+	Batch   int     `json:"batch,omitempty"`
+	Obj     int     `json:"obj,omitempty"`
+	Pred    int     `json:"pred,omitempty"`
+	Objs    []int   `json:"objs,omitempty"`
+	Vec     bool    `json:"vec,omitempty"`
+	From    string  `json:"from,omitempty"`
+	At      int     `json:"at,omitempty"`
+	Child   string  `json:"child,omitempty"`
+	Target  int     `json:"target,omitempty"`
+	Base    int     `json:"base,omitempty"`
+	Commit  int     `json:"commit,omitempty"`
 	NewObjs [][]int `json:"newobjs,omitempty"`
 	NewIds  []int   `json:"newids,omitempty"`
 	Removed []int   `json:"removed,omitempty"`
